@@ -495,3 +495,36 @@ def mc_lit_cases(chk, maxcount=17):
         cases.append(dict(roots=[("Root", samples)], envspec={}, policy=DR.POLICIES[1], fw=b["fw"], layout="flat",
                           kw={"max_literals": b["maxlit"]}))
     return cases
+
+
+# ---------------------------------------------------------------------- Labels.tla
+CFG_LABELS = """SPECIFICATION Spec
+CONSTANTS
+  MaxLen = %d
+  Emit = TRUE
+INVARIANT Valid
+INVARIANT Injective
+CHECK_DEADLOCK FALSE
+"""
+
+
+def label_traces(chk, maxlen):
+    """MC_Labels: the label pipeline transcribed over a small alphabet; every key compared with the real prepare_label"""
+    from json_to_models.models.base import prepare_label
+    r = chk.model_check("MC_Labels", CFG_LABELS % maxlen, "label pipeline (strip non-word characters, leading digit rule, inflection.underscore, "
+                        "reserved-word suffix) on every pair of keys of <=%d characters over {a,B,f,i,1,_,-}: Valid Injective" % maxlen,
+                        workers=1)
+    evs = []
+    for t in tlc.printed_tuples(r["out"], "B"):
+        b = json.loads(t[1])
+        key = "".join(b["key"])
+        ev = {"ev": "Label", "key": list(key), "field": [], "cls": [], "exc": ""}
+        try:
+            ev["field"] = list(prepare_label(key, convert_unicode=True, to_snake_case=True))
+            ev["cls"] = list(prepare_label(key, convert_unicode=True, to_snake_case=False))
+        except Exception as e:
+            ev["exc"] = DI.exc_name(e)
+        evs.append(ev)
+    traces = [{"id": "lab%d" % i, "events": evs[i:i + 100]} for i in range(0, len(evs), 100)]
+    inputs = {t["id"]: {"first_key": "".join(t["events"][0]["key"])} for t in traces}
+    return traces, inputs
